@@ -1731,7 +1731,10 @@ fn eval_for_in(
 
     let Value_::List { items, .. } = iteree_value.as_ref() else {
         return Err((
-            RestoreValues(vec![iteree_value.clone()]),
+            RestoreValues(vec![
+                Value::new(Value_::Int(iteree_idx)),
+                iteree_value.clone(),
+            ]),
             EvalError::Exception(ExceptionInfo {
                 position: iteree_pos.clone(),
                 message: format_type_error(
